@@ -7,7 +7,7 @@ import os
 
 here = os.path.dirname(os.path.dirname(os.path.abspath(__file__)))
 import re
-for d in sorted(glob.glob(os.path.join(here, "seeded", "*-R[23456]?"))):
+for d in sorted(glob.glob(os.path.join(here, "seeded", "*-R[234567]?"))):
     rnd = int(re.search(r"-R(\d)", d).group(1))
     mp = os.path.join(d, "meta.json")
     meta = json.load(open(mp))
